@@ -76,9 +76,25 @@ func NewConstraintFromRule( //nolint:gocyclo // For now it's okay.
 	case "nullable":
 		return NewNullable(ruleValue)
 	case "regex":
-		return NewRegex(ruleValue)
+		return newRegexFromRule(ruleValue)
 	case "const":
 		return NewConst(ruleValue, nodeValue)
 	}
 	panic(lexeme.NewError(ruleNameLex, errs.ErrUnknownRule.F(str)))
+}
+
+// newRegexFromRule creates the "regex" constraint from the value written in a rule.
+// NewRegex panics with the errors of encoding/json and regexp as they are; a rule
+// value which is not a string, or is not a regular expression, has to be reported
+// like the invalid values of the other rules: with a code and in our own words.
+func newRegexFromRule(ruleValue bytes.Bytes) *Regex {
+	defer func() {
+		if r := recover(); r != nil {
+			if ruleValue.TrimSpaces().InQuotes() {
+				panic(errs.ErrRegexInvalid.F(ruleValue.TrimSpaces().Unquote().String()))
+			}
+			panic(errs.ErrInvalidValueOfConstraint.F(RegexConstraintType.String()))
+		}
+	}()
+	return NewRegex(ruleValue)
 }
